@@ -4,6 +4,7 @@ import SlipVerif.Lemmas.PrinterPrettyRead
 import SlipVerif.Lemmas.PrinterReadBase
 import SlipVerif.Lemmas.Wire6
 import SlipVerif.Lemmas.PrinterReadBaseStruct
+import SlipVerif.Lemmas.PrinterPrettyReadGen
 /-
   C03 — printing then reading gives back an equal object of the same type; pretty printing changes
   only white space.
@@ -336,6 +337,42 @@ theorem pretty_margin_independent (hT : TablesOK) (cfg : PCfg) (hC : CfgOK cfg) 
   rw [h1, h2]
   rw [f1] at f2
   exact f2
+
+/-- pretty_read_roundtrip_readbase: the same for text without radix marks read with `*read-base*` =
+    `*print-base*` (any base 2..36, every margin): the pretty text and the flat text read back to the same
+    object, equal to the original. -/
+theorem pretty_read_roundtrip_readbase (hT : TablesOK) (cfg : PCfg) (hC : CfgRB cfg) (margin : Nat) (x : Obj) (hwf : WF x)
+    (hns : LeavesOK (NoSpell cfg.base) x) :
+    ∃ y, readAll cfg.base (printPretty cfg margin x) = .ok y ∧ readAll cfg.base (printFlat cfg x) = .ok y ∧
+      objEq x y = true ∧ typeOf y = typeOf x := by
+  refine ⟨recase cfg.case x, ?_, ?_, objEq_recase cfg.case x, (equal_same_type x _ (objEq_recase cfg.case x)).symm⟩
+  · have hlen := (pretty_size_le_length_arr hT cfg hC.array margin x).1 hwf 0 0
+    have h := (pretty_struct_roundtrip_gen hT (leafRead_readbase hT cfg hC) margin x).1 hwf hns 0 0 []
+      (3 * (printPretty cfg margin x).length + 4) rfl (by unfold printPretty; omega)
+    rw [List.append_nil] at h
+    unfold readAll
+    unfold printPretty at h ⊢
+    rw [h]
+    rfl
+  · have hlen := (size_le_length_arr hT cfg hC.array x).1 hwf
+    have h := (struct_roundtrip_readbase hT cfg hC x).1 hwf hns [] (3 * (printFlat cfg x).length + 4) rfl (by omega)
+    rw [List.append_nil] at h
+    unfold readAll
+    rw [h]
+    rfl
+
+/-- … and any two right margins give texts that read back to the same object -/
+theorem pretty_margin_independent_readbase (hT : TablesOK) (cfg : PCfg) (hC : CfgRB cfg) (m1 m2 : Nat) (x : Obj) (hwf : WF x)
+    (hns : LeavesOK (NoSpell cfg.base) x) :
+    readAll cfg.base (printPretty cfg m1 x) = readAll cfg.base (printPretty cfg m2 x) := by
+  obtain ⟨y1, h1, f1, _⟩ := pretty_read_roundtrip_readbase hT cfg hC m1 x hwf hns
+  obtain ⟨y2, h2, f2, _⟩ := pretty_read_roundtrip_readbase hT cfg hC m2 x hwf hns
+  rw [h1, h2]
+  rw [f1] at f2
+  exact f2
+
+example : printPretty { base := 16, radix := false } 9 (.cons (.int 255) (.cons (.sym "face".toList) (.cons (.ratio 10 17) .nil))) =
+    "(ff\n |face|\n a/11)".toList := by decide
 
 example : printPretty { base := 10 } 14 (.cons (.sym "alpha".toList) (.cons (.sym "beta".toList) (.cons (.sym "gamma".toList) .nil))) =
     "(alpha beta\n       gamma)".toList := by decide
